@@ -322,6 +322,15 @@ func (c *Chain) customDigestAt(ctx sdk.Context, vo ViewOpts) string {
 	return canonical(M{"aol": c.ViewsAol(ctx, vo), "did": c.ViewsDid(ctx, vo), "pnft": c.ViewsPnft(ctx, vo)})
 }
 
+// splitDigest returns the canonical text of the single-item (Get-based) answers and of the listing (iterator-based) answers.
+func (c *Chain) splitDigest(ctx sdk.Context, vo ViewOpts) (gets string, iters string) {
+	a := c.ViewsAol(ctx, vo)
+	p := c.ViewsPnft(ctx, vo)
+	gets = canonical(M{"topic": a["topic"], "writer": a["writer"], "record": a["record"], "did": c.ViewsDid(ctx, vo), "denom": p["denom"], "token": p["token"]})
+	iters = canonical(M{"topics": a["topics"], "writers": a["writers"], "tokens": p["tokens"], "byOwner": p["byOwner"], "denomsByOwner": p["denomsByOwner"], "denoms": p["denoms"]})
+	return
+}
+
 func canonical(v any) string {
 	switch x := v.(type) {
 	case M:
